@@ -115,7 +115,7 @@ func Run(o Opts) Result {
 	defer cancel()
 	cmd := exec.CommandContext(ctx, "java", args...)
 	cmd.Dir = dir
-	cmd.SysProcAttr = &syscall.SysProcAttr{Setpgid: true}
+	cmd.SysProcAttr = &syscall.SysProcAttr{Setpgid: true, Pdeathsig: syscall.SIGKILL}
 	cmd.Cancel = func() error { return syscall.Kill(-cmd.Process.Pid, syscall.SIGKILL) }
 	var buf bytes.Buffer
 	cmd.Stdout = &buf
